@@ -233,16 +233,27 @@ Definition missing_required (md : mode) (p : parser) (cfg : cv) : list (list seg
       | Some sb =>
           flat_missing (p_args p) cfg
           ++ nest_missing (p_args p) (CDict (filter (fun kw => match assoc (fst kw) (s_map sb) with Some _ => false | None => true end) l))
-          ++ match spec_selected md sb l with
-             | Some s =>
-                 match assoc s (s_map sb) with
-                 | Some sa =>
-                     let w := match assoc s l with Some w => w | None => CDict [] end in
-                     map (cons (K s)) (flat_missing sa w ++ nest_missing sa w)
-                 | None => if s_req sb then [[K (s_dest sb)]] else []
-                 end
-             | None => if s_req sb then [[K (s_dest sb)]] else []
-             end
+          ++ (match spec_selected md sb l with
+              | Some s =>
+                  match assoc s (s_map sb) with
+                  | Some sa =>
+                      let w := match assoc s l with Some w => w | None => CDict [] end in
+                      map (cons (K s)) (flat_missing sa w ++ nest_missing sa w)
+                  | None => if s_req sb then [[K (s_dest sb)]] else []
+                  end
+              | None => if s_req sb then [[K (s_dest sb)]] else []
+              end)
+          (* a section of another subcommand that the parse keeps (without merged defaults a single extra section is not
+             discarded) is validated like any other value: the nested levels inside it are enforced, its own required
+             arguments are not *)
+          ++ flat_map (fun kw =>
+               match assoc (fst kw) (s_map sb) with
+               | Some sa =>
+                   if match spec_selected md sb l with Some s => str_eqb (fst kw) s | None => false end
+                      || mem_str (fst kw) (discarded md sb l)
+                   then [] else map (cons (K (fst kw))) (nest_missing sa (snd kw))
+               | None => []
+               end) l
       end
   | _ => []
   end.
